@@ -20,6 +20,9 @@ theorem shiftGo_bday (fuel : Nat) (neg inv : Bool) (a : Nat) (d : Int) (t : List
     (noDig_cons _ _ (by decide)) (by omega)
   rw [e, snarfShiftGoC]
   simp only [hs]
+  have hrange : ¬ ((if neg = true then -(a : Int) else a) > 366 ∨ (if neg = true then -(a : Int) else a) < -366) := by
+    split <;> omega
+  rw [if_neg hrange]
   have hw : wrapInt (if neg = true then -(a : Int) else a) = if neg = true then -(a : Int) else a :=
     wrapInt_id _ (by split <;> omega)
   simp only [Int.zero_add, hw]
@@ -90,6 +93,8 @@ theorem snarfShiftC_text (sh : Int) (t : List Char) (ht : Term t) (h : ShiftOk s
       have e : fmtD (shDvalue sh) ++ ([','] ++ bdayText (shNegP sh) (shInvP sh) (shAbsval sh)) ++ t
           = fmtD (shDvalue sh) ++ ',' :: (bdayText (shNegP sh) (shInvP sh) (shAbsval sh) ++ t) := by simp
       rw [e, snarfShiftGoC, strtolC_d _ _ (noDig_cons _ _ (by decide)) (by omega)]
+      simp only []
+      rw [if_neg (by omega)]
       have hc : ¬ (',' = 'b' ∨ ',' = 'B') := by decide
       simp only [hc, if_false, if_true, Int.zero_add]
       rw [wrapInt_id _ (by omega), shiftGo_bday _ _ _ _ _ t ht ha hd (hinv hb)]
@@ -104,6 +109,8 @@ theorem snarfShiftC_text (sh : Int) (t : List Char) (ht : Term t) (h : ShiftOk s
     have hsh : sh = shDvalue sh * 65536 := by
       unfold shDvalue; unfold shLow at hl; omega
     rw [snarfShiftGoC, strtolC_d _ t ht.noDig (by omega)]
+    simp only []
+    rw [if_neg (by omega)]
     have hx : packShift (wrapInt (0 + shDvalue sh)) 0 0 = sh := by
       rw [Int.zero_add, wrapInt_id _ (by omega)]
       unfold packShift
